@@ -212,6 +212,11 @@ IfStmts ==
           c \in SomeConds, e \in {NoneObj, Else(<<Restart>>)}}
   \cup {If(Cmp, <<Esi>>, <<Elif(W("elsif"), "elsif", Mat, <<>>), Elif(W("else") \o W("if"), "else if", Not, <<Esi>>)>>, Else(<<LogA>>))}
   \cup {If(Cmp, <<If(Not, <<Esi>>, <<>>, Else(<<LogA>>))>>, <<>>, NoneObj)}          \* nesting
+  \* constructs nested in constructs: switch in if/else, if in a case, block in an else-if, two levels of blocks
+  \cup {If(Cmp, <<Switch(idA, <<Case(TestEq(sA), <<If(Not, <<LogA>>, <<Elif(W("elseif"), "elseif", Mat, <<Esi>>)>>, NoneObj), Break>>, FALSE),
+                               Case(NoneObj, <<Block(<<SetA>>), Break>>, FALSE)>>)>>,
+           <<Elif(W("else") \o W("if"), "else if", Mat, <<Block(<<Block(<<Esi>>), LogA>>)>>)>>,
+           Else(<<Switch(idB, <<Case(TestRe(sRe), <<Restart, Break>>, FALSE)>>), SetS(idA, "=", Cat(sA, IfX(Cmp, sA, FCallX("std.itoa", <<i10>>)), TRUE))>>))}
 
 SwitchStmts ==
   {Switch(idA, <<Case(TestEq(sA), <<Esi, Break>>, FALSE)>>),
